@@ -509,7 +509,11 @@ func init() {
 				runs = [][]int{{0, 0}, {1, 1}, {1, 0}}
 			}
 			for _, r := range runs {
-				js = append(js, sym.Job{Pkg: "combination", Harness: "Harness_C03_Factor", Args: []int{r[0], r[1]}, Cfg: sym.JobConfig{MaxSteps: 3000000}})
+				sorted := 1
+				if tier == "thorough" {
+					sorted = 0
+				}
+				js = append(js, sym.Job{Pkg: "combination", Harness: "Harness_C03_Factor", Args: []int{r[0], r[1], sorted}, Cfg: sym.JobConfig{MaxSteps: 3000000}})
 				for i1 := 0; i1 < 9; i1++ {
 					for i2 := i1; i2 < 9; i2++ {
 						js = append(js, sym.Job{Pkg: "combination", Harness: "Harness_C03_Mono", Args: []int{r[0], r[1], i1, i2}, Cfg: sym.JobConfig{MaxSteps: 3000000}})
@@ -521,7 +525,11 @@ func init() {
 		AssertPrefix: []string{"C03."},
 		Covers:       func(tier string) []string { return []string{"C03.factor", "C03.mono", "C03.wheel"} },
 		Bounds: func(tier string) []string {
-			b := []string{"standard ranking table on the 52-card deck: step 1 (factorisation) for every hand of five different cards in every input order; step 2 (monotonicity) for every ordered pair of categories and every pair of valid tuples", "no bound inside the domain: every hand and, through the decomposition, every pair of hands is covered"}
+			order := "in every input order"
+			if tier != "thorough" {
+				order = "given in non-increasing rank order (every input order in the thorough tier)"
+			}
+			b := []string{"standard ranking table on the 52-card deck: step 1 (factorisation) for every hand of five different cards " + order + "; step 2 (monotonicity) for every ordered pair of categories and every pair of valid tuples", "no bound inside the domain: every hand and, through the decomposition, every pair of hands is covered"}
 			if tier == "thorough" {
 				b = append(b, "also the short-deck table on the 36-card deck (A-9-8-7-6 excluded: its class is left open by the statement) and the short-deck table on the 52-card deck")
 			}
